@@ -13,6 +13,7 @@ package shmipc
 //   take <c> <k> / give <c> <k>   another holder pops / recycles k buffers of class c
 
 import (
+	"encoding/binary"
 	"bytes"
 	"encoding/hex"
 	"fmt"
@@ -449,6 +450,16 @@ func c06Exec(ops []string, prop string) (res vResult) {
 				c.tags["stream-cleaned"] = true
 				c.checkAllBack("after cls " + x)
 				return "ok" + c.suffix(x)
+			case f[0] == "fbe" && len(f) == 2 && e != nil:
+				// a well-formed fall-back data event with an EMPTY payload arrives for x's stream: an empty slice joins the
+				// receive buffer behind whatever is there
+				ev := make([]byte, headerSize+8)
+				header(ev).encode(uint32(len(ev)), e.s.communicationVersion, typeFallbackData)
+				binary.BigEndian.PutUint32(ev[headerSize:], e.st.id)
+				binary.BigEndian.PutUint32(ev[headerSize+4:], uint32(streamOpened))
+				vDeliverEvent(e.s, ev)
+				c.tags["empty-fallback-event"] = true
+				return "ok" + c.suffix(x)
 			case f[0] == "len" && len(f) == 2 && e != nil:
 				return "ok" + c.suffix(x)
 			case (f[0] == "take" || f[0] == "give") && len(f) == 3:
@@ -582,6 +593,9 @@ func c06Gen(r *rand.Rand, tier string, idx int, flavour string) []string {
 				if r.Intn(3) == 0 {
 					sz = avail
 				}
+			}
+			if r.Intn(12) == 0 {
+				ops = append(ops, "fbe "+rd)
 			}
 			opn := []string{"rb", "rb", "pk", "dc", "rs", "rd", "rbyte"}[r.Intn(7)]
 			if flavour == "c08" {
